@@ -37,6 +37,7 @@ const (
 	tagTrail     = "ext4-write-trailing-empty-writes"
 	tagDealloc   = "ext4-dealloc-block-group"
 	tagRmStale   = "ext4-remove-stale-dir-block"
+	tagDirShrink = "ext4-writedirectory-shrinks-size"
 )
 
 const MiB = int64(1 << 20)
@@ -57,7 +58,7 @@ func configs() []x.Config {
 	}
 }
 
-type defects struct{ skip, remove, leak, wrap, rmLink, extCsum, longLink, staleLink, stale, trail, dealloc, rmStale bool }
+type defects struct{ skip, remove, leak, wrap, rmLink, extCsum, longLink, staleLink, stale, trail, dealloc, rmStale, dirShrink bool }
 
 type engine struct {
 	c    *hx.Ctx
@@ -208,6 +209,7 @@ func (e *engine) runHistory(h hist, scratch string) {
 	rn := &runner{fs: fs, ref: r, bs: bs, avoidSkip: e.def.skip}
 	c.Stat("histories." + cfg.Name)
 	prevAcct := view.Acct()
+	partial := map[string]bool{} // directories a refused nested Mkdir may have made before it failed (mkdir -p semantics)
 	gaps := map[string][][2]int64{} // per file: the ranges between the old end of file and the offset of a write past EOF
 	for s := 0; s < h.nops; s++ {
 		id := fmt.Sprintf("%s/s%d", h.id, s)
@@ -370,6 +372,13 @@ func (e *engine) runHistory(h hist, scratch string) {
 		}
 		if out.refused != nil {
 			stop = true // a refused call may have been carried out in part: the history ends here
+			if o.kind == "mkdir" {
+				for q := o.path; q != "." && q != ""; q = parentOf(q) {
+					if r.lookup(q) == nil {
+						partial[q] = true
+					}
+				}
+			}
 		}
 		if stop {
 			break
@@ -382,7 +391,7 @@ func (e *engine) runHistory(h hist, scratch string) {
 	}
 	e.shapeStats(fs, r)
 	if e.fsck {
-		e.debugfsCheck(h, cfg, d, r, gaps, scratch, repro)
+		e.debugfsCheck(h, cfg, d, r, gaps, partial, scratch, repro)
 	}
 }
 
@@ -541,6 +550,11 @@ func (e *engine) fsckStep(id string, cfg x.Config, d *memdev.Dev, o op, out outc
 		}
 		tag := "-"
 		switch {
+		case e.def.dirShrink && (o.kind == "create" || o.kind == "mkdir" || o.kind == "symlink") && out.refused == nil &&
+			parentBlocks(rn.fs, o.path) >= 2 && strings.Contains(fout, ", i_size is") && strings.Contains(fout, ", i_blocks is") &&
+			!strings.Contains(fout, "bitmap differences") && !strings.Contains(fout, "count wrong"):
+			// a directory with a spare block (names were removed from it) got a new name: size and blocks cut to what the entries need
+			tag = tagDirShrink
 		case o.kind == "remove" && out.refused == nil && e.def.rmStale && rmParentBlocks >= 2 && staleDirFsck(fout):
 			tag = tagRmStale
 		case o.kind == "remove" && out.refused == nil && e.def.remove &&
@@ -601,7 +615,7 @@ func staleGapOnly(got, want []byte, gaps [][2]int64) bool {
 	return diff
 }
 
-func (e *engine) debugfsCheck(h hist, cfg x.Config, d *memdev.Dev, r *ref, gaps map[string][][2]int64, scratch string, repro func() string) {
+func (e *engine) debugfsCheck(h hist, cfg x.Config, d *memdev.Dev, r *ref, gaps map[string][][2]int64, partial map[string]bool, scratch string, repro func() string) {
 	c := e.c
 	id := h.id + "/debugfs"
 	img := filepath.Join(scratch, "dbg.img")
@@ -641,6 +655,17 @@ func (e *engine) debugfsCheck(h hist, cfg x.Config, d *memdev.Dev, r *ref, gaps 
 		var want []string
 		for k := range r.lookup(dir).kids {
 			want = append(want, k)
+		}
+		// a refused Mkdir of a nested path may have made the outer directories: they are not in the reference
+		if len(partial) > 0 {
+			kept := names[:0]
+			for _, nm := range names {
+				if _, inRef := r.lookup(dir).kids[nm]; !inRef && partial[join(dir, nm)] {
+					continue
+				}
+				kept = append(kept, nm)
+			}
+			names = kept
 		}
 		sort.Strings(want)
 		if strings.Join(names, "|") != strings.Join(want, "|") {
